@@ -2,7 +2,7 @@
     Every lemma of this file is restated in Props/Properties_C26.v. *)
 From Coq Require Import List Arith Bool NArith Lia.
 Import ListNotations.
-Require Import C26_Model C26_Lemmas C26_Ops.
+Require Import C26_Model C26_Lemmas C26_Ops C26_Guard.
 
 Section World.
 Context {elt : Type}.
@@ -133,14 +133,14 @@ Ltac pre_tac := intros s0 Hs0;
         | eapply set_elt_pre; eauto; lia ].
 
 (** one step: the model succeeds exactly when std::vector's precondition holds, and then refines it *)
-Lemma step_ok (w : world) ls (o : op) : Inv w ls -> ext_op o = true ->
+Lemma step_ok guard (w : world) ls (o : op) : Inv w ls -> ext_op o = true ->
   match sstep dflt ls o with
-  | Some ls' => exists w', step dflt w o = Ok w' /\ Inv w' ls'
-  | None => step dflt w o = Err Precond
+  | Some ls' => exists w', step dflt guard w o = Ok w' /\ Inv w' ls'
+  | None => step dflt guard w o = Err Precond
   end.
 Proof.
   intros HI He. destruct o; try (destruct v; [|discriminate He]); unfold sstep, step; cbn [op_arr].
-  - (* PushBack *) apply single_ok; auto. intros xs _. simpl. eapply op_ok_any, push_back_ok.
+  - (* PushBack *) apply single_ok; auto. intros xs _. simpl. eapply op_ok_eq; [apply push_back_g_ext|]. eapply op_ok_any, push_back_ok.
   - (* PushBackMove *) apply single_ok; auto. intros xs _. simpl. eapply op_ok_any, push_back_ok.
   - (* PushBackDefault *) apply single_ok; auto. intros xs _. simpl. eapply op_ok_any, push_back_default_ok.
   - (* PopBack *) apply single_ok; auto. intros xs _. simpl. destruct xs.
@@ -160,11 +160,11 @@ Proof.
     + intros s Hs. eapply erase_fast_pre; eauto. lia.
   - (* Clear *) apply single_ok; auto. intros xs _. simpl. eapply op_ok_any, clear_ok.
   - (* InsertN *) apply single_ok; auto. intros xs _. simpl. destruct (Nat.leb_spec p (length xs)).
-    + eapply op_ok_any, insert_n_ok; auto.
-    + intros s Hs. unfold insert_n. rewrite (insert_gap_pre p n s xs); auto. lia.
+    + eapply op_ok_eq; [apply insert_n_g_ext|]. eapply op_ok_any, insert_n_ok; auto.
+    + intros s Hs. rewrite insert_n_g_ext. unfold insert_n. rewrite (insert_gap_pre p n s xs); auto. lia.
   - (* Insert *) apply single_ok; auto. intros xs _. simpl. destruct (Nat.leb_spec p (length xs)).
-    + eapply op_ok_any, insert_one_ok; auto.
-    + intros s Hs. unfold insert_one. rewrite (insert_gap_pre p 1 s xs); auto. lia.
+    + eapply op_ok_eq; [apply insert_one_g_ext|]. eapply op_ok_any, insert_one_ok; auto.
+    + intros s Hs. rewrite insert_one_g_ext. unfold insert_one. rewrite (insert_gap_pre p 1 s xs); auto. lia.
   - (* Emplace *) apply single_ok; auto. intros xs _. simpl. destruct (Nat.leb_spec p (length xs)).
     + eapply op_ok_any, insert_one_ok; auto.
     + intros s Hs. unfold insert_one. rewrite (insert_gap_pre p 1 s xs); auto. lia.
@@ -172,7 +172,7 @@ Proof.
     + eapply op_ok_any, insert_list_ok; auto.
     + intros s Hs. unfold insert_list. rewrite (insert_gap_pre p (length vs) s xs); auto. lia.
   - (* Resize *) apply single_ok; auto. intros xs _. simpl. eapply op_ok_any, resize_ok.
-  - (* ResizeFill *) apply single_ok; auto. intros xs _. simpl. eapply op_ok_any, resize_fill_ok.
+  - (* ResizeFill *) apply single_ok; auto. intros xs _. simpl. eapply op_ok_eq; [apply resize_fill_g_ext|]. eapply op_ok_any, resize_fill_ok.
   - (* Reserve *) apply single_ok; auto. intros xs _. simpl. eapply op_ok_any, reserve_ok.
   - (* ShrinkToFit *) apply single_ok; auto. intros xs _. simpl. eapply op_ok_any, shrink_to_fit_ok.
   - (* AssignFill *) apply single_ok; auto. intros xs _. simpl. eapply op_ok_any, assign_fill_op_ok.
@@ -249,16 +249,67 @@ Proof.
   - induction k; simpl; auto.
 Qed.
 
-Lemma run_ok ops : forall (w : world) ls, Inv w ls -> forallb (@ext_op elt) ops = true ->
+(** what may be passed: outside values always; own-element references when Array.h has the repair ([guard = true]) *)
+Definition allowed (guard : bool) (o : op) : bool := guard || ext_op o.
+
+Lemma with_tmp_pre (f : vsrc elt -> st -> res st) xs i x (s : st) : good s xs -> nth_error xs i = Some x ->
+  (forall s0, good s0 xs -> f (Ext x) s0 = Err Precond) -> with_tmp i f s = Err Precond.
+Proof.
+  intros Hs Hi Hf. unfold with_tmp. rewrite (good_read s xs i x Hs Hi). simpl. rewrite Hf; auto.
+Qed.
+
+(** one step of the repaired Array.h with any value argument *)
+Lemma step_ok_guarded (w : world) ls (o : op) : Inv w ls ->
+  match sstep dflt ls o with
+  | Some ls' => exists w', step dflt true w o = Ok w' /\ Inv w' ls'
+  | None => step dflt true w o = Err Precond
+  end.
+Proof.
+  intros HI. destruct (ext_op o) eqn:He; [apply step_ok; auto|].
+  destruct o; try discriminate He; destruct v; try discriminate He; unfold sstep, step; cbn [op_arr]; apply single_ok; auto;
+    intros xs _; simpl.
+  - (* PushBack (Own i) *) destruct (nth_error xs i) as [x|] eqn:Ei.
+    + apply push_back_g_own_ok; auto.
+    + intros s Hs. unfold push_back_g. rewrite (own_ok_false s xs i Hs Ei); auto.
+  - (* InsertN (Own i) *) destruct (Nat.leb_spec p (length xs)); destruct (nth_error xs i) as [x|] eqn:Ei.
+    + apply insert_n_g_own_ok; auto.
+    + intros s Hs. unfold insert_n_g. rewrite (own_ok_false s xs i Hs Ei); auto.
+    + intros s Hs. unfold insert_n_g. rewrite (own_ok_true s xs i x Hs Ei). destruct (Nat.eqb_spec n 0).
+      * unfold insert_n. rewrite (insert_gap_pre p n s xs); auto. lia.
+      * eapply with_tmp_pre; eauto. intros s0 Hs0. unfold insert_n. rewrite (insert_gap_pre p n s0 xs); auto. lia.
+    + intros s Hs. unfold insert_n_g. rewrite (own_ok_false s xs i Hs Ei); auto.
+  - (* Insert (Own i) *) destruct (Nat.leb_spec p (length xs)); destruct (nth_error xs i) as [x|] eqn:Ei.
+    + apply insert_one_g_own_ok; auto.
+    + intros s Hs. unfold insert_one_g. rewrite (own_ok_false s xs i Hs Ei); auto.
+    + intros s Hs. unfold insert_one_g. rewrite (own_ok_true s xs i x Hs Ei).
+      eapply with_tmp_pre; eauto. intros s0 Hs0. unfold insert_one. rewrite (insert_gap_pre p 1 s0 xs); auto. lia.
+    + intros s Hs. unfold insert_one_g. rewrite (own_ok_false s xs i Hs Ei); auto.
+  - (* ResizeFill (Own i) *) destruct (nth_error xs i) as [x|] eqn:Ei.
+    + apply resize_fill_g_own_ok; auto.
+    + intros s Hs. unfold resize_fill_g. rewrite (own_ok_false s xs i Hs Ei); auto.
+Qed.
+
+Lemma step_ok_allowed guard (w : world) ls (o : op) : Inv w ls -> allowed guard o = true ->
+  match sstep dflt ls o with
+  | Some ls' => exists w', step dflt guard w o = Ok w' /\ Inv w' ls'
+  | None => step dflt guard w o = Err Precond
+  end.
+Proof.
+  intros HI Ha. destruct guard; simpl in Ha.
+  - apply step_ok_guarded; auto.
+  - apply step_ok; auto.
+Qed.
+
+Lemma run_ok guard ops : forall (w : world) ls, Inv w ls -> forallb (allowed guard) ops = true ->
   match srun dflt ls ops with
-  | Some ls' => exists w', run dflt w ops = Ok w' /\ Inv w' ls'
-  | None => run dflt w ops = Err Precond
+  | Some ls' => exists w', run dflt guard w ops = Ok w' /\ Inv w' ls'
+  | None => run dflt guard w ops = Err Precond
   end.
 Proof.
   induction ops as [|o ops]; intros w ls HI He; simpl in *.
   - eauto.
   - apply andb_true_iff in He. destruct He as [He1 He2].
-    pose proof (step_ok w ls o HI He1) as H. destruct (sstep dflt ls o) as [l1|].
+    pose proof (step_ok_allowed guard w ls o HI He1) as H. destruct (sstep dflt ls o) as [l1|].
     + destruct H as (w1 & E1 & I1). rewrite E1; simpl. apply IHops; auto.
     + rewrite H; reflexivity.
 Qed.
@@ -313,33 +364,34 @@ Proof. unfold sizes. intros HF; induction HF; simpl; auto. destruct H as (A & _)
 
 (* ================================================================== THE THEOREMS ================================= *)
 
-(** refines_list: from K empty arrays, every operation sequence with outside value arguments that respects
+(** refines_list: from K empty arrays, every operation sequence whose value arguments are outside objects (and, with the
+    isOwnElement repair, [guard = true], ANY value arguments including references to own elements) that respects
     std::vector's preconditions runs without fault and leaves exactly the std::vector contents (values and order) *)
-Lemma refines_list k ops ls : forallb (@ext_op elt) ops = true -> srun dflt (repeat [] k) ops = Some ls ->
-  exists w, run dflt (init_world k) ops = Ok w /\ map observe (arrs w) = map (map Some) ls.
+Lemma refines_list guard k ops ls : forallb (allowed guard) ops = true -> srun dflt (repeat [] k) ops = Some ls ->
+  exists w, run dflt guard (init_world k) ops = Ok w /\ map observe (arrs w) = map (map Some) ls.
 Proof.
-  intros He Hs. pose proof (run_ok ops (init_world k) _ (Inv_init k) He) as H. rewrite Hs in H.
+  intros He Hs. pose proof (run_ok guard ops (init_world k) _ (Inv_init k) He) as H. rewrite Hs in H.
   destruct H as (w & E & I). exists w; split; auto. apply observe_world; auto.
 Qed.
 
 (** ... and the model stops with [Precond] exactly when an operation's precondition fails *)
-Lemma precondition_only k ops : forallb (@ext_op elt) ops = true -> srun dflt (repeat [] k) ops = None ->
-  run dflt (init_world k) ops = Err Precond.
+Lemma precondition_only guard k ops : forallb (allowed guard) ops = true -> srun dflt (repeat [] k) ops = None ->
+  run dflt guard (init_world k) ops = Err Precond.
 Proof.
-  intros He Hs. pose proof (run_ok ops (init_world k) _ (Inv_init k) He) as H. rewrite Hs in H. auto.
+  intros He Hs. pose proof (run_ok guard ops (init_world k) _ (Inv_init k) He) as H. rewrite Hs in H. auto.
 Qed.
 
 (** slot_discipline: no operation sequence with outside values ever constructs on a live slot, reads/moves/assigns a
     raw or moved-from slot, destroys raw storage, frees a block holding objects or reads a freed block (the only
     possible error is a violated precondition), and afterwards every array has live objects exactly in [0,size),
     raw storage elsewhere, capacity >= size *)
-Lemma slot_discipline k ops : forallb (@ext_op elt) ops = true ->
-  match run dflt (init_world k) ops with
+Lemma slot_discipline guard k ops : forallb (allowed guard) ops = true ->
+  match run dflt guard (init_world k) ops with
   | Ok w => Forall disciplined (arrs w)
   | Err f => f = Precond
   end.
 Proof.
-  intros He. pose proof (run_ok ops (init_world k) _ (Inv_init k) He) as H.
+  intros He. pose proof (run_ok guard ops (init_world k) _ (Inv_init k) He) as H.
   destruct (srun dflt (repeat [] k) ops) as [ls|].
   - destruct H as (w & E & (HF & _)). rewrite E. clear E. induction HF; constructor; auto. eapply disciplined_good; eauto.
   - rewrite H; auto.
@@ -348,10 +400,10 @@ Qed.
 (** ctor_dtor_balanced: constructor calls - destructor calls = number of elements alive = sum of sizes, and the
     live slots of each block are exactly its size() elements: with [slot_discipline] (no construction on a live
     slot, no destruction of a raw one) every element is constructed once and destroyed once *)
-Lemma ctor_dtor_balanced k ops w : forallb (@ext_op elt) ops = true -> run dflt (init_world k) ops = Ok w ->
+Lemma ctor_dtor_balanced guard k ops w : forallb (allowed guard) ops = true -> run dflt guard (init_world k) ops = Ok w ->
   wctor w = (wdtor w + N.of_nat (sizes w))%N /\ Forall (fun a => live_count a = asize a) (arrs w).
 Proof.
-  intros He E. pose proof (run_ok ops (init_world k) _ (Inv_init k) He) as H.
+  intros He E. pose proof (run_ok guard ops (init_world k) _ (Inv_init k) He) as H.
   destruct (srun dflt (repeat [] k) ops) as [ls|]; [|congruence].
   destruct H as (w' & E' & (HF & HB)). rewrite E in E'; inversion E'; subst w'. split.
   - rewrite (sizes_total w ls); auto.
@@ -359,8 +411,8 @@ Proof.
 Qed.
 
 (** after destroying every array of the world reached, nothing is alive: all constructed elements have been destroyed *)
-Lemma dealloc_all n : forall m (w : world) ls, Inv w ls -> m + n = length ls -> (forall i, i < m -> nth_error ls i = Some []) ->
-  exists w' ls', run dflt w (map (@Deallocate elt) (seq m n)) = Ok w' /\ Inv w' ls' /\ length ls' = length ls /\
+Lemma dealloc_all guard n : forall m (w : world) ls, Inv w ls -> m + n = length ls -> (forall i, i < m -> nth_error ls i = Some []) ->
+  exists w' ls', run dflt guard w (map (@Deallocate elt) (seq m n)) = Ok w' /\ Inv w' ls' /\ length ls' = length ls /\
                  forall i, i < length ls -> nth_error ls' i = Some [].
 Proof.
   induction n; intros m w ls HI Hm Hpre; simpl.
@@ -376,15 +428,15 @@ Proof.
     + rewrite length_upd in *. exists w2, ls2. split; auto.
 Qed.
 
-Lemma all_destroyed k ops w : forallb (@ext_op elt) ops = true -> run dflt (init_world k) ops = Ok w ->
-  exists w', run dflt w (map (@Deallocate elt) (seq 0 (length (arrs w)))) = Ok w' /\ wctor w' = wdtor w' /\
+Lemma all_destroyed guard k ops w : forallb (allowed guard) ops = true -> run dflt guard (init_world k) ops = Ok w ->
+  exists w', run dflt guard w (map (@Deallocate elt) (seq 0 (length (arrs w)))) = Ok w' /\ wctor w' = wdtor w' /\
              Forall (fun a => asize a = 0) (arrs w').
 Proof.
-  intros He E. pose proof (run_ok ops (init_world k) _ (Inv_init k) He) as H.
+  intros He E. pose proof (run_ok guard ops (init_world k) _ (Inv_init k) He) as H.
   destruct (srun dflt (repeat [] k) ops) as [ls|]; [|congruence].
   destruct H as (w0 & E0 & I0). rewrite E in E0; inversion E0; subst w0.
   assert (L : length (arrs w) = length ls). { destruct I0 as (HF & _). eapply Forall2_len; eauto. }
-  rewrite L. destruct (dealloc_all (length ls) 0 w ls I0) as (w' & ls' & E' & (HF' & HB') & L' & P'); auto.
+  rewrite L. destruct (dealloc_all guard (length ls) 0 w ls I0) as (w' & ls' & E' & (HF' & HB') & L' & P'); auto.
   { intros; lia. }
   exists w'; split; auto.
   assert (Hall : forall xs, In xs ls' -> xs = []).
@@ -398,3 +450,110 @@ Proof.
     + apply IHHF'. intros; apply Hall; right; auto.
 Qed.
 End World.
+
+(* ================================================================== capacity, views, witnesses ==================== *)
+Section Cap.
+Context {elt : Type}.
+Variable dflt : elt.
+
+(** growth policy of calcNewCapacityForGrowthBy: enough room, at least doubling, at least 4, and nothing else *)
+Lemma growth_policy_bounds cap n :
+  cap + n <= new_cap cap n /\ 2 * cap <= new_cap cap n /\ 4 <= new_cap cap n /\
+  (new_cap cap n = cap + n \/ new_cap cap n = 2 * cap \/ new_cap cap n = 4).
+Proof. apply new_cap_bounds. Qed.
+
+(** push_back reallocates only when the array is full, then to the policy's capacity *)
+Lemma push_back_capacity (s : st elt) xs v : good s xs ->
+  exists s', push_back (Ext v) s = Ok s' /\ good s' (xs ++ [v]) /\
+             capacity s' = if capacity s =? length xs then new_cap (capacity s) 1 else capacity s.
+Proof. intros Hg. destruct (push_back_ok v xs s Hg) as (s' & E & G & _ & C). exists s'; auto. Qed.
+
+(** insert(p, n, value): in place when size()+n <= capacity(), otherwise one reallocation to the policy's capacity *)
+Lemma insert_capacity (s : st elt) xs p n v : good s xs -> p <= length xs ->
+  exists s', insert_n p n (Ext v) s = Ok s' /\ good s' (splice p p (repeat v n) xs) /\
+             capacity s' = if n =? 0 then capacity s else if length xs + n <=? capacity s then capacity s else new_cap (capacity s) n.
+Proof. intros Hg Hp. destruct (insert_n_ok p n v xs Hp s Hg) as (s' & E & G & _ & C). exists s'; auto. Qed.
+
+(** reserve never shrinks and allocates exactly what is asked for; shrink_to_fit keeps up to 25% slop *)
+Lemma reserve_capacity (s : st elt) xs n : good s xs ->
+  exists s', reserve n s = Ok s' /\ good s' xs /\ capacity s' = if n <=? capacity s then capacity s else n.
+Proof. intros Hg. destruct (reserve_ok n xs s Hg) as (s' & E & G & _ & C). exists s'; auto. Qed.
+Lemma shrink_capacity (s : st elt) xs : good s xs ->
+  exists s', shrink_to_fit s = Ok s' /\ good s' xs /\
+             capacity s' = if capacity s - Nat.div2 (Nat.div2 (length xs)) <=? length xs then capacity s else length xs.
+Proof. intros Hg. destruct (shrink_to_fit_ok xs s Hg) as (s' & E & G & _ & C). exists s'; auto. Qed.
+
+(** view_aliases_subrange: filling / assigning through a (nested) ArrayView_ changes exactly the elements of its
+    sub-range [b, b+l) of the owner, calls no constructor or destructor, and leaves size and capacity alone;
+    the sub-range of a nested view lies inside its parent's *)
+Lemma view_aliases_subrange (s : st elt) xs path v b l : good s xs -> resolve_view path 0 (length xs) = Some (b, l) ->
+  exists s', view_fill path v s = Ok s' /\ good s' (firstn b xs ++ repeat v l ++ skipn (b + l) xs) /\
+             capacity s' = capacity s /\ b + l <= length xs.
+Proof.
+  intros Hg Hv. destruct (view_fill_ok path v xs b l Hv s Hg) as (s' & E & G & _ & C). exists s'.
+  split; auto. split; auto. split; auto. apply resolve_view_bounds in Hv. lia.
+Qed.
+Lemma view_assign_aliases_subrange (s : st elt) xs path vs b : good s xs -> resolve_view path 0 (length xs) = Some (b, length vs) ->
+  exists s', view_assign path vs s = Ok s' /\ good s' (firstn b xs ++ vs ++ skipn (b + length vs) xs) /\ capacity s' = capacity s.
+Proof. intros Hg Hv. destruct (view_assign_ok path vs xs b Hv s Hg) as (s' & E & G & _ & C). exists s'; auto. Qed.
+Lemma view_nested_inside path : forall base len b l, resolve_view path base len = Some (b, l) -> base <= b /\ b + l <= base + len.
+Proof. apply resolve_view_bounds. Qed.
+End Cap.
+
+(* ------------------------------------------------------------------ value arguments that refer to the array itself *)
+Definition four : list (op nat) := [PushBack 0 (Ext 1); PushBack 0 (Ext 2); PushBack 0 (Ext 3); PushBack 0 (Ext 4)].
+
+(** slot_discipline_refuted: a.push_back(a[0]) on a full array (std::vector must support it): growAtEnd frees the old
+    block, then copyConstruct reads the value through the reference into it *)
+Lemma slot_discipline_refuted :
+  exists ops : list (op nat), srun 0 [[]] ops = Some [[1; 2; 3; 4; 1]] /\ run 0 false (init_world 1) ops = Err ReadFreed.
+Proof. exists (four ++ [PushBack 0 (Own 0)]). split; vm_compute; reflexivity. Qed.
+
+(** the same for insert(p, value) / insert(p, n, value) / resize(n, value) when they reallocate *)
+Lemma slot_discipline_refuted_insert_realloc :
+  exists ops : list (op nat), srun 0 [[]] ops = Some [[1; 1; 2; 3; 4]] /\ run 0 false (init_world 1) ops = Err ReadFreed.
+Proof. exists (four ++ [Insert 0 0 (Own 0)]). split; vm_compute; reflexivity. Qed.
+Lemma slot_discipline_refuted_insert_n_realloc :
+  exists ops : list (op nat), srun 0 [[]] ops = Some [[1; 2; 2; 2; 3; 4]] /\ run 0 false (init_world 1) ops = Err ReadFreed.
+Proof. exists (four ++ [InsertN 0 1 2 (Own 1)]). split; vm_compute; reflexivity. Qed.
+Lemma slot_discipline_refuted_resize :
+  exists ops : list (op nat), srun 0 [[]] ops = Some [[1; 2; 3; 4; 3; 3]] /\ run 0 false (init_world 1) ops = Err ReadFreed.
+Proof. exists (four ++ [ResizeFill 0 6 (Own 2)]). split; vm_compute; reflexivity. Qed.
+
+(** in place (no reallocation): b.insert(b.begin(), b[0]) reads the slot moveElementsUp has just vacated *)
+Lemma slot_discipline_refuted_inplace :
+  exists ops : list (op nat), srun 0 [[]] ops = Some [[1; 1; 2; 3; 4]] /\ run 0 false (init_world 1) ops = Err ReadNotLive.
+Proof. exists (four ++ [Reserve 0 16; Insert 0 0 (Own 0)]). split; vm_compute; reflexivity. Qed.
+
+(** refines_list_refuted: b.insert(b.begin(), b[2]) with spare capacity runs without fault but inserts the old b[1]
+    (the element moveElementsUp has shifted into slot 2), where std::vector inserts b[2] *)
+Lemma refines_list_refuted :
+  exists (ops : list (op nat)) w, srun 0 [[]] ops = Some [[3; 1; 2; 3; 4]] /\ run 0 false (init_world 1) ops = Ok w /\
+    map observe (arrs w) = [[Some 2; Some 1; Some 2; Some 3; Some 4]].
+Proof. exists (four ++ [Reserve 0 16; Insert 0 0 (Own 2)]). eexists. split; [|split]; vm_compute; reflexivity. Qed.
+
+(** own-element arguments are harmless when nothing is moved before the value is read: push_back without
+    reallocation, and insert in place at a position after the referenced element *)
+Lemma own_argument_fine_without_moves :
+  exists (ops : list (op nat)) w, run 0 false (init_world 1) ops = Ok w /\
+    map observe (arrs w) = map (map Some) [[1; 2; 3; 2; 4; 1]] /\ srun 0 [[]] ops = Some [[1; 2; 3; 2; 4; 1]].
+Proof. exists (four ++ [Reserve 0 16; PushBack 0 (Own 0); Insert 0 3 (Own 1)]). eexists. split; [|split]; vm_compute; reflexivity. Qed.
+
+(** with the repair every one of the refuting sequences above has the std::vector result *)
+Lemma witnesses_repaired :
+  map (fun ops => match run 0 true (init_world 1) ops with Ok w => map observe (arrs w) | Err _ => [] end)
+      [four ++ [PushBack 0 (Own 0)]; four ++ [Insert 0 0 (Own 0)]; four ++ [InsertN 0 1 2 (Own 1)];
+       four ++ [ResizeFill 0 6 (Own 2)]; four ++ [Reserve 0 16; Insert 0 0 (Own 0)]; four ++ [Reserve 0 16; Insert 0 0 (Own 2)]] =
+  map (fun l => [map Some l]) [[1; 2; 3; 4; 1]; [1; 1; 2; 3; 4]; [1; 2; 2; 2; 3; 4]; [1; 2; 3; 4; 3; 3]; [1; 1; 2; 3; 4]; [3; 1; 2; 3; 4]].
+Proof. vm_compute. reflexivity. Qed.
+
+(** non-vacuity of the main theorems: a sequence over three arrays that uses growth, in-place and reallocating inserts,
+    erase, eraseFast, copies, moves, views; all hypotheses hold and the result is not trivial *)
+Definition demo : list (op nat) :=
+  [PushBack 0 (Ext 1); PushBack 0 (Ext 2); PushBackMove 0 3; PushBackDefault 0; PushBack 0 (Ext 5);
+   Insert 0 1 (Ext 9); InsertN 0 2 3 (Ext 7); Erase 0 1 3; EraseFast 0 0; CtorCopy 1 0; Swap 0 1; Resize 1 12;
+   ShrinkToFit 0; ViewFill 1 [(2, 8); (1, 3)] 55; InsertList 0 1 [70; 71; 72]; CopyAssign 2 0; MoveAssign 2 1;
+   EraseOne 2 3; AssignFill 1 2 8; SetElt 1 0 6; ViewAssign 0 [(1, 2)] [40; 41]; PopBack 0; Reserve 2 40; CtorMove 1 2].
+Lemma demo_hypotheses : forallb (allowed false) demo = true /\
+  srun 0 (repeat [] 3) demo = Some [[5; 40; 41; 72; 7; 7; 2; 3]; [5; 7; 7; 55; 55; 0; 0; 0; 0; 0; 0]; []].
+Proof. split; vm_compute; reflexivity. Qed.
